@@ -8,7 +8,9 @@ G = "vf/pyshim/h_wfile.py"
 def plan(tier, seed):
     t = 120 if tier == "quick" else 400
     jobs = [ch("C18", G, "h_simple_append_rejected", t, ["writer.write_simple (append branch)"]),
-            ch("C18", G, "h_multi_append_fault", t, ["api.ParquetFile.write_row_groups", "writer.write_multi"])]
+            ch("C18", G, "h_multi_append_fault", t, ["api.ParquetFile.write_row_groups", "writer.write_multi"]),
+            ch("C18", G, "h_append_other_columns_simple", t, ["api.ParquetFile.write_row_groups", "writer.write_simple",
+                                                              "writer.make_row_group"])]
     try:
         from . import rejections
         jobs += rejections.jobs("C18", tier)
